@@ -60,13 +60,13 @@ EXTERNAL = {
     "wcscpy":        dict(w=[(0, ("unb",))], r=[(1, ("nul",))]),
     "wcsncpy":       dict(w=[(0, (A, 2, 4))], r=[(1, ("argnul", 2, 4))]),
     "wcscat":        dict(w=[(0, ("unb",))], r=[(0, ("nul",)), (1, ("nul",))]),
-    "sprintf":       dict(w=[(0, ("unb",))], r=[(1, ("nul",))], fmt=1),
-    "snprintf":      dict(w=[(0, (A, 1, 1))], r=[(2, ("nul",))], fmt=2),
-    "vsprintf":      dict(w=[(0, ("unb",))], r=[(1, ("nul",))], fmt=1, va=2),
-    "vsnprintf":     dict(w=[(0, (A, 1, 1))], r=[(2, ("nul",))], fmt=2, va=3),
-    "__snprintf_chk": dict(w=[(0, (A, 1, 1))], fmt=4),
-    "swprintf":      dict(w=[(0, (A, 1, 4))], r=[(2, ("nul",))], fmt=2),
-    "vswprintf":     dict(w=[(0, (A, 1, 4))], r=[(2, ("nul",))], fmt=2, va=3),
+    "sprintf":       dict(gram="printf", w=[(0, ("unb",))], r=[(1, ("nul",))], fmt=1),
+    "snprintf":      dict(gram="printf", w=[(0, (A, 1, 1))], r=[(2, ("nul",))], fmt=2),
+    "vsprintf":      dict(gram="printf", w=[(0, ("unb",))], r=[(1, ("nul",))], fmt=1, va=2),
+    "vsnprintf":     dict(gram="printf", w=[(0, (A, 1, 1))], r=[(2, ("nul",))], fmt=2, va=3),
+    "__snprintf_chk": dict(gram="printf", w=[(0, (A, 1, 1))], fmt=4),
+    "swprintf":      dict(gram="wprintf", w=[(0, (A, 1, 4))], r=[(2, ("nul",))], fmt=2),
+    "vswprintf":     dict(gram="wprintf", w=[(0, (A, 1, 4))], r=[(2, ("nul",))], fmt=2, va=3),
     # ---- multibyte
     "mbstowcs":      dict(w=[(0, (A, 2, 4))], r=[(1, ("nul",))]),
     "wcstombs":      dict(w=[(0, (A, 2, 1))], r=[(1, ("nul",))]),
@@ -99,22 +99,22 @@ EXTERNAL = {
     "gmtime_r":      dict(w=[(1, ("const", 56))], r=[(0, ("const", 8))]),
     "localtime_r":   dict(w=[(1, ("const", 56))], r=[(0, ("const", 8))]),
     "strerror_r":    dict(w=[(1, (A, 2, 1))]),
-    "vprintf":       dict(r=[(0, ("nul",))], fmt=0, va=1, libc_fmt="printf"),
-    "vfprintf":      dict(r=[(1, ("nul",))], fmt=1, va=2, libc_fmt="printf"),
-    "vwprintf":      dict(r=[(0, ("nul",))], fmt=0, va=1, libc_fmt="wprintf"),
-    "vfwprintf":     dict(r=[(1, ("nul",))], fmt=1, va=2, libc_fmt="wprintf"),
-    "vsscanf":       dict(r=[(0, ("nul",)), (1, ("nul",))], fmt=1, va=2, libc_fmt="scanf"),
-    "vfscanf":       dict(r=[(1, ("nul",))], fmt=1, va=2, libc_fmt="scanf"),
-    "vscanf":        dict(r=[(0, ("nul",))], fmt=0, va=1, libc_fmt="scanf"),
-    "vswscanf":      dict(r=[(0, ("nul",)), (1, ("nul",))], fmt=1, va=2, libc_fmt="wscanf"),
-    "vfwscanf":      dict(r=[(1, ("nul",))], fmt=1, va=2, libc_fmt="wscanf"),
-    "vwscanf":       dict(r=[(0, ("nul",))], fmt=0, va=1, libc_fmt="wscanf"),
-    "__isoc99_vsscanf":  dict(r=[(0, ("nul",)), (1, ("nul",))], fmt=1, va=2, libc_fmt="scanf"),
-    "__isoc99_vfscanf":  dict(r=[(1, ("nul",))], fmt=1, va=2, libc_fmt="scanf"),
-    "__isoc99_vscanf":   dict(r=[(0, ("nul",))], fmt=0, va=1, libc_fmt="scanf"),
-    "__isoc99_vswscanf": dict(r=[(0, ("nul",)), (1, ("nul",))], fmt=1, va=2, libc_fmt="wscanf"),
-    "__isoc99_vfwscanf": dict(r=[(1, ("nul",))], fmt=1, va=2, libc_fmt="wscanf"),
-    "__isoc99_vwscanf":  dict(r=[(0, ("nul",))], fmt=0, va=1, libc_fmt="wscanf"),
+    "vprintf":       dict(r=[(0, ("nul",))], fmt=0, va=1, gram="printf"),
+    "vfprintf":      dict(r=[(1, ("nul",))], fmt=1, va=2, gram="printf"),
+    "vwprintf":      dict(r=[(0, ("nul",))], fmt=0, va=1, gram="wprintf"),
+    "vfwprintf":     dict(r=[(1, ("nul",))], fmt=1, va=2, gram="wprintf"),
+    "vsscanf":       dict(r=[(0, ("nul",)), (1, ("nul",))], fmt=1, va=2, gram="scanf"),
+    "vfscanf":       dict(r=[(1, ("nul",))], fmt=1, va=2, gram="scanf"),
+    "vscanf":        dict(r=[(0, ("nul",))], fmt=0, va=1, gram="scanf"),
+    "vswscanf":      dict(r=[(0, ("nul",)), (1, ("nul",))], fmt=1, va=2, gram="wscanf"),
+    "vfwscanf":      dict(r=[(1, ("nul",))], fmt=1, va=2, gram="wscanf"),
+    "vwscanf":       dict(r=[(0, ("nul",))], fmt=0, va=1, gram="wscanf"),
+    "__isoc99_vsscanf":  dict(r=[(0, ("nul",)), (1, ("nul",))], fmt=1, va=2, gram="scanf"),
+    "__isoc99_vfscanf":  dict(r=[(1, ("nul",))], fmt=1, va=2, gram="scanf"),
+    "__isoc99_vscanf":   dict(r=[(0, ("nul",))], fmt=0, va=1, gram="scanf"),
+    "__isoc99_vswscanf": dict(r=[(0, ("nul",)), (1, ("nul",))], fmt=1, va=2, gram="wscanf"),
+    "__isoc99_vfwscanf": dict(r=[(1, ("nul",))], fmt=1, va=2, gram="wscanf"),
+    "__isoc99_vwscanf":  dict(r=[(0, ("nul",))], fmt=0, va=1, gram="wscanf"),
     # ---- misc
     "abort":         dict(noreturn=True),
     "exit":          dict(noreturn=True),
@@ -123,8 +123,8 @@ EXTERNAL = {
     "pow": {}, "frexp": dict(w=[(1, ("const", 4))]), "frexpl": dict(w=[(1, ("const", 4))]), "floor": {}, "floorl": {}, "fabs": {}, "fabsl": {},
     "log10": {}, "log10l": {}, "powl": {}, "modf": dict(w=[(1, ("const", 8))]), "modfl": dict(w=[(1, ("const", 16))]),
     "ldexp": {}, "ldexpl": {}, "isnan": {}, "isinf": {}, "isinfl": {}, "isnanl": {}, "__isinfl": {}, "__isnanl": {},
-    "fprintf":       dict(r=[(1, ("nul",))], fmt=1, libc_fmt_fixed=True),
-    "printf":        dict(r=[(0, ("nul",))], fmt=0, libc_fmt_fixed=True),
+    "fprintf":       dict(gram="printf", r=[(1, ("nul",))], fmt=1),
+    "printf":        dict(gram="printf", r=[(0, ("nul",))], fmt=0),
     "qsort":         dict(w=[(0, ("mul", 1, 2))], r=[(0, ("mul", 1, 2))], callback=3),
     "setlocale":     dict(r=[(1, ("nul",))]),
     "strerror": {},
